@@ -145,13 +145,14 @@ class Ctx:
         out_lines: list[str] = []
         violations: list[Instance] = []
         known_hit: list[tuple[Instance, str]] = []
-        analysis_errors: list[str] = []
+        analysis_errors: list[str] = list(getattr(self, 'extra_errors', []))
+        aborted = bool(analysis_errors)
         total = ok = undec = 0
         nontrivial: set[str] = set()
         for r in self.rules:
             n = len(r.instances)
             total += n
-            if n < r.minimum:
+            if n < r.minimum and not aborted:
                 analysis_errors.append(
                     f'rule {r.id} ({r.title}) discovered {n} instance(s), '
                     f'hand-confirmed minimum is {r.minimum}: the anchors '
